@@ -23,6 +23,14 @@ def request_variant(sp, variant, name):
         variant = "full"
     if variant == "full":
         return core, [0, 1, 2, 3]
+    if variant == "inner":
+        # same number of points, same first and last point, the interior ones moved (a request that looks like the
+        # previous one to anything keyed on shape and end points)
+        def mid(a, b, w):
+            if isinstance(a, tuple):
+                return tuple((1 - w) * x + w * y for x, y in zip(a, b))
+            return (1 - w) * a + w * b
+        return [core[0], mid(core[1], core[2], 0.35), mid(core[2], core[3], 0.4), core[3]], [0, None, None, 3]
     if variant == "perm":
         return [core[i] for i in PERM], PERM
     if variant == "subset":
